@@ -49,7 +49,7 @@ func TestMain(m *testing.M) {
 		evid.Spec{Name: "TestPropInjectedReadError", Kind: "rapid", Quick: 1600, Thorough: 40000, QuickShards: 16, ThoroughShards: 16},
 	)
 	evid.Commands("obiconvert", "obicount", "obigrep")
-	evid.Note("rule", "small FASTA/FASTQ files compressed with gzip, bzip2, xz, zstd (and two-member gzip) are cut at EVERY byte position, alone or as the middle one of three input files, (quick: every position of 2 files per codec for obiconvert FILE, every 3rd for obicount/obigrep and for gzip on stdin); random single-bit flips; files whose decompressed size exceeds 1 MiB cut at sampled positions (incl. inside the trailer); in-process: a reader failing with a non-EOF error after k bytes (plain and gzip) fed to Buf -> OBIMimeTypeGuesser -> ReadFasta/ReadFastq. Oracle: the codec library alone decides (error -> the command must exit non-zero and must not print a complete-looking success; clean decode of the original -> the command either refuses the input or prints exactly the reference output; clean decode of other bytes -> discarded). Non-trivial = the fault lies after at least one complete record could be decompressed. Distinct = hash(codec, file, fault position/bit, command).")
+	evid.Note("rule", "small FASTA/FASTQ files (and CSV sequence tables, GenBank and EMBL flat files: obiconvert FILE, every second position in quick) compressed with gzip, bzip2, xz, zstd (and two-member gzip) are cut at EVERY byte position, alone or as the middle one of three input files, (quick: every position of 2 files per codec for obiconvert FILE, every 3rd for obicount/obigrep and for gzip on stdin); random single-bit flips; files whose decompressed size exceeds 1 MiB cut at sampled positions (incl. inside the trailer); in-process: a reader failing with a non-EOF error after k bytes (plain and gzip) fed to Buf -> OBIMimeTypeGuesser -> ReadFasta/ReadFastq. Oracle: the codec library alone decides (error -> the command must exit non-zero and must not print a complete-looking success; clean decode of the original -> the command either refuses the input or prints exactly the reference output; clean decode of other bytes -> discarded). Non-trivial = the fault lies after at least one complete record could be decompressed. Distinct = hash(codec, file, fault position/bit, command).")
 	evid.Note("level", "fault_enumeration")
 	evid.Main(m, "C17")
 }
@@ -59,7 +59,7 @@ func TestReplay(t *testing.T) { evid.Replay(t) }
 // ---------------------------------------------------------------- files
 
 type FileSpec struct {
-	Format string // fasta, fastq
+	Format string // fasta, fastq, csv (sequence table), genbank, embl
 	NRec   int
 	SeqLen int
 	Salt   int
@@ -79,14 +79,45 @@ func render(f FileSpec) ([]byte, int) {
 			x = x*1664525 + 1013904223
 			s[j] = "acgt"[(x>>24)&3]
 		}
-		if f.Format == "fastq" {
+		switch f.Format {
+		case "fastq":
 			q := make([]byte, n)
 			for j := range q {
 				x = x*1664525 + 1013904223
 				q[j] = byte(33 + (x>>20)%60)
 			}
 			fmt.Fprintf(&b, "@s%d_%d {\"rank\":%d}\n%s\n+\n%s\n", f.Salt, i, i, s, q)
-		} else {
+		case "csv": // a sequence table as obicsv writes it
+			if i == 0 {
+				b.WriteString("id,rank,sequence\n")
+				second = b.Len()
+			}
+			fmt.Fprintf(&b, "s%d_%d,%d,%s\n", f.Salt, i, i, s)
+		case "genbank":
+			id := fmt.Sprintf("AB%05d", (f.Salt*31+i)%100000)
+			fmt.Fprintf(&b, "LOCUS       %s %d bp    DNA     linear   PLN 01-JAN-2000\nDEFINITION  record %d.\nACCESSION   %s\nVERSION     %s.1\nKEYWORDS    .\nSOURCE      Abies alba\n  ORGANISM  Abies alba\n            Eukaryota; Viridiplantae.\nFEATURES             Location/Qualifiers\n     source          1..%d\n                     /organism=\"Abies alba\"\n                     /db_xref=\"taxon:45372\"\nORIGIN\n", id, n, i, id, id, n)
+			for p := 0; p < n; p += 60 {
+				fmt.Fprintf(&b, "%9d", p+1)
+				for q := p; q < min(n, p+60); q += 10 {
+					b.WriteString(" " + string(s[q:min(n, q+10)]))
+				}
+				b.WriteString("\n")
+			}
+			b.WriteString("//\n")
+		case "embl":
+			id := fmt.Sprintf("AB%05d", (f.Salt*31+i)%100000)
+			fmt.Fprintf(&b, "ID   %s; SV 1; linear; genomic DNA; STD; PLN; %d BP.\nXX\nAC   %s;\nXX\nDE   record %d\nXX\nOS   Abies alba\nOC   Eukaryota; Viridiplantae.\nXX\nFH   Key             Location/Qualifiers\nFH\nFT   source          1..%d\nFT                   /organism=\"Abies alba\"\nFT                   /db_xref=\"taxon:45372\"\nXX\nSQ   Sequence %d BP; 0 A; 0 C; 0 G; 0 T; 0 other;\n", id, n, id, i, n, n)
+			for p := 0; p < n; p += 60 {
+				line := "    "
+				for q := p; q < min(n, p+60); q += 10 {
+					line += " " + string(s[q:min(n, q+10)])
+				}
+				cnt := fmt.Sprint(min(n, p+60))
+				line += strings.Repeat(" ", max(1, 80-len(line)-len(cnt))) + cnt
+				b.WriteString(line + "\n")
+			}
+			b.WriteString("//\n")
+		default:
 			fmt.Fprintf(&b, ">s%d_%d {\"rank\":%d}\n%s\n", f.Salt, i, i, s)
 		}
 	}
@@ -197,8 +228,9 @@ func judge(c FaultCase) (verdict, []byte, []byte) {
 		}
 	}
 	if c.Cut > 0 && c.FlipByte < 0 && !c.Stdin && trailerStartCuts(c, orig)[c.Cut] {
-		evid.Excluded("gzip_cut_at_trailer_start", 1)
-		return verdict{}, orig, bad
+		// (excluded as the known finding gzip_cut_at_trailer_start until gzip input was
+		// switched to the standard library reader: asserted like every other cut since then)
+		evid.Class("gzip_cut_at_trailer_start", 1)
 	}
 	out, err := decompress(c.Codec, bad)
 	var v verdict
@@ -360,7 +392,8 @@ func evalFault(c FaultCase, extra ...string) verdict {
 var codecs = []string{"gzip", "bzip2", "xz", "zstd", "gzip2"}
 
 func TestEveryTruncation(t *testing.T) {
-	files := []FileSpec{{Format: "fasta", NRec: 6, SeqLen: 30, Salt: int(evid.Seed())}, {Format: "fastq", NRec: 5, SeqLen: 25, Salt: int(evid.Seed()) + 1}}
+	files := []FileSpec{{Format: "fasta", NRec: 6, SeqLen: 30, Salt: int(evid.Seed())}, {Format: "fastq", NRec: 5, SeqLen: 25, Salt: int(evid.Seed()) + 1},
+		{Format: "csv", NRec: 5, SeqLen: 20, Salt: int(evid.Seed()) + 4}, {Format: "genbank", NRec: 2, SeqLen: 25, Salt: int(evid.Seed()) + 5}, {Format: "embl", NRec: 2, SeqLen: 25, Salt: int(evid.Seed()) + 6}}
 	if evid.Thorough() {
 		files = append(files, FileSpec{Format: "fasta", NRec: 40, SeqLen: 60, Salt: int(evid.Seed()) + 2}, FileSpec{Format: "fastq", NRec: 1, SeqLen: 10, Salt: int(evid.Seed()) + 3})
 	}
@@ -370,7 +403,27 @@ func TestEveryTruncation(t *testing.T) {
 		for _, k := range codecs {
 			z := compress(k, orig)
 			for cut := 1; cut < len(z); cut++ {
+				other := f.Format != "fasta" && f.Format != "fastq"
+				if other && !evid.Thorough() && cut > 12 && cut%2 == 1 && cut < len(z)-12 {
+					continue // (quick: every second position of the CSV / flat files, all of them near both ends)
+				}
 				variants := []FaultCase{{File: f, Codec: k, Cut: cut, FlipByte: -1, Command: "obiconvert"}}
+				if other {
+					if k == "gzip2" {
+						continue
+					}
+					for _, c := range variants {
+						n++
+						if n%evid.NShards() != evid.Shard() {
+							continue
+						}
+						evalFault(c, "every_truncation", "format:"+f.Format)
+						if err := checkFault(c); err != nil {
+							evid.Fail(t, "faulted_input", c, err)
+						}
+					}
+					continue
+				}
 				// (the first bytes - magic number and header - get every variant in the quick tier too)
 				if cut%3 == 0 || cut <= 12 || (evid.Thorough() && (f.NRec < 40 || cut%2 == 0)) {
 					variants = append(variants,
@@ -402,7 +455,7 @@ func TestEveryTruncation(t *testing.T) {
 func TestPropBitFlip(t *testing.T) {
 	rapid.Check(t, func(rt *rapid.T) {
 		c := FaultCase{
-			File:    FileSpec{Format: rapid.SampledFrom([]string{"fasta", "fastq"}).Draw(rt, "format"), NRec: rapid.IntRange(1, 30).Draw(rt, "nrec"), SeqLen: rapid.IntRange(5, 80).Draw(rt, "seqlen"), Salt: rapid.IntRange(0, 1000).Draw(rt, "salt")},
+			File:    FileSpec{Format: rapid.SampledFrom([]string{"fasta", "fastq", "fasta", "fastq", "csv", "genbank", "embl"}).Draw(rt, "format"), NRec: rapid.IntRange(1, 30).Draw(rt, "nrec"), SeqLen: rapid.IntRange(5, 80).Draw(rt, "seqlen"), Salt: rapid.IntRange(0, 1000).Draw(rt, "salt")},
 			Codec:   rapid.SampledFrom(codecs).Draw(rt, "codec"),
 			Command: rapid.SampledFrom([]string{"obiconvert", "obiconvert", "obicount", "obigrep"}).Draw(rt, "cmd"),
 		}
@@ -410,7 +463,7 @@ func TestPropBitFlip(t *testing.T) {
 		z := compress(c.Codec, orig)
 		c.FlipByte = rapid.IntRange(0, len(z)-1).Draw(rt, "byte")
 		c.FlipBit = rapid.IntRange(0, 7).Draw(rt, "bit")
-		if strings.HasPrefix(c.Codec, "gzip") {
+		if strings.HasPrefix(c.Codec, "gzip") && (c.File.Format == "fasta" || c.File.Format == "fastq") { // the standard-input reader knows these two formats only
 			c.Stdin = rapid.IntRange(0, 3).Draw(rt, "stdin") == 0
 			if c.Stdin {
 				c.Command = "obiconvert"
@@ -431,7 +484,7 @@ func TestPropBitFlip(t *testing.T) {
 func TestPropLargeTruncation(t *testing.T) {
 	rapid.Check(t, func(rt *rapid.T) {
 		c := FaultCase{
-			File:     FileSpec{Format: rapid.SampledFrom([]string{"fasta", "fastq"}).Draw(rt, "format"), NRec: rapid.IntRange(9000, 20000).Draw(rt, "nrec"), SeqLen: rapid.IntRange(100, 150).Draw(rt, "seqlen"), Salt: rapid.IntRange(0, 1000).Draw(rt, "salt")},
+			File:     FileSpec{Format: rapid.SampledFrom([]string{"fasta", "fastq", "csv", "fasta", "fastq", "csv", "genbank", "embl"}).Draw(rt, "format"), NRec: rapid.IntRange(9000, 20000).Draw(rt, "nrec"), SeqLen: rapid.IntRange(100, 150).Draw(rt, "seqlen"), Salt: rapid.IntRange(0, 1000).Draw(rt, "salt")},
 			Codec:    rapid.SampledFrom([]string{"gzip", "gzip", "zstd", "bzip2", "xz", "gzip2"}).Draw(rt, "codec"),
 			Command:  rapid.SampledFrom([]string{"obiconvert", "obiconvert", "obicount"}).Draw(rt, "cmd"),
 			FlipByte: -1,
@@ -446,7 +499,7 @@ func TestPropLargeTruncation(t *testing.T) {
 		default:
 			c.Cut = rapid.IntRange(1, len(z)-1).Draw(rt, "cut")
 		}
-		if strings.HasPrefix(c.Codec, "gzip") {
+		if strings.HasPrefix(c.Codec, "gzip") && (c.File.Format == "fasta" || c.File.Format == "fastq") { // the standard-input reader knows these two formats only
 			c.Stdin = rapid.IntRange(0, 3).Draw(rt, "stdin") == 0
 			if c.Stdin {
 				c.Command = "obiconvert"
